@@ -564,15 +564,31 @@ def check_cipher(ck, mod, f, label, rulemap):
             n += 1
             if enc and gt:
                 want_ptr = repr(Lf({out_cur: 1, 1: r}) if r else Lf.s(out_cur))
+                abs_tag = gt[0][3] == repr(Lf({A["c"]: 1, A["mlen"]: 1}))
+                if abs_tag:
+                    want_ptr = gt[0][3]        # addressed from the entry values: c + mlen is the tag position by definition
                 c.ob(gt[0][3] == want_ptr, "TAGPOS", "%s-tag-position" % name, "tag written right after the %d ciphertext byte(s) of this tail" % r,
                      "tag is written at %s, expected %s" % (gt[0][3], want_ptr))
                 wr = {k[1] for k in outs if k[0] == out_cur}
-                c.ob(wr == set(range(r + 8)) and all(k[0] == out_cur for k in outs), "OUTRANGE", "%s-writes" % name,
-                     "exactly output bytes [0,%d) written: %d ciphertext + 8 tag" % (r + 8, r), "the tail writes output offsets %s (expected exactly [0,%d))" % (sorted(wr), r + 8))
-                for b in range(8):
-                    got = outs.get((out_cur, r + b))
-                    c.ob(got == gf2.sym_word(("TAG", gt[0][1], b), 8), "TAGPOS", "%s-tag-byte%d" % (name, b), "tag byte %d survives at offset %d" % (b, r + b),
-                         "offset %d does not hold tag byte %d at return" % (r + b, b))
+                if abs_tag:
+                    # the tag goes to c + mlen addressed from the entry values: the cursor sees the r ciphertext bytes only, and the
+                    # only stores at symbolic offsets of c are the 8 tag bytes
+                    so = repr(Lf.s(A["mlen"]))
+                    symw = [(e_[2], e_[3]) for e_ in p.events if e_[0] == "out-sym"]
+                    c.ob(wr == set(range(r)) and all(k[0] == out_cur for k in outs) and sorted(set(symw)) == [(so, b_) for b_ in range(8)]
+                         and all(e_[1] == A["c"] for e_ in p.events if e_[0] == "out-sym"), "OUTRANGE", "%s-writes" % name,
+                         "exactly %d ciphertext byte(s) at the cursor and the 8 tag bytes at c + mlen are written" % r, "the tail writes cursor offsets %s and symbolic offsets %s" % (sorted(wr), sorted(set(symw))[:10]))
+                    for b in range(8):
+                        got = p.mem.get((A["c"], (so, b)))
+                        c.ob(got is not None and list(got) == gf2.sym_word(("TAG", gt[0][1], b), 8), "TAGPOS", "%s-tag-byte%d" % (name, b), "tag byte %d survives at c + mlen + %d" % (b, b),
+                             "c + mlen + %d does not hold tag byte %d at return" % (b, b))
+                else:
+                    c.ob(wr == set(range(r + 8)) and all(k[0] == out_cur for k in outs), "OUTRANGE", "%s-writes" % name,
+                         "exactly output bytes [0,%d) written: %d ciphertext + 8 tag" % (r + 8, r), "the tail writes output offsets %s (expected exactly [0,%d))" % (sorted(wr), r + 8))
+                    for b in range(8):
+                        got = outs.get((out_cur, r + b))
+                        c.ob(got == gf2.sym_word(("TAG", gt[0][1], b), 8), "TAGPOS", "%s-tag-byte%d" % (name, b), "tag byte %d survives at offset %d" % (b, r + b),
+                             "offset %d does not hold tag byte %d at return" % (r + b, b))
                 n += 10
         if not enc:
             ch = [e for e in ev if e[0] == "CHECK"]
@@ -582,6 +598,8 @@ def check_cipher(ck, mod, f, label, rulemap):
                 want_t1 = tuple(b for kk in range(8) for b in gf2.sym_word(("TAG", gt[-1][1], kk), 8))
                 c.ob(tuple(ch[0][4]) == want_t1, "RT", "%s-computed-tag" % name, "check_tag compares the tag just generated", "tag1 passed to check_tag is not the generated tag")
                 want_ptr = repr(Lf({in_cur: 1, 1: r}) if r else Lf.s(in_cur))
+                if ch[0][5] == repr(Lf({A["c"]: 1, A["clen"]: 1, 1: -8})):
+                    want_ptr = ch[0][5]        # addressed from the entry values: c + clen - 8 is the tag position by definition
                 c.ob(ch[0][5] == want_ptr and ch[0][6] == 8, "TAGPOS", "%s-received-tag" % name, "received tag read right after the %d ciphertext byte(s) of this tail (8 bytes)" % r,
                      "received tag is read at %s (%s bytes), expected %s" % (ch[0][5], ch[0][6], want_ptr))
                 c.ob(ch[0][2] == repr(Lf.s(A["m"])), "RT", "%s-wipe-start" % name, "check_tag gets the start of the plaintext buffer", "check_tag gets %s as plaintext pointer" % ch[0][2])
